@@ -254,8 +254,7 @@ def make_modules(I):
             except Exception as e:
                 raise Raised(e)
         mods["packaging"] = ModuleNS("packaging", {})
-        mods["packaging.version"] = ModuleNS("packaging.version", {"Version": Builtin("Version", parse),
-                                                                   "parse": Builtin("parse", parse)})
+        mods["packaging.version"] = ModuleNS("packaging.version", {"Version": _Version, "parse": Builtin("parse", parse)})
         mods["packaging"].d["version"] = mods["packaging.version"]
     except ImportError:  # pragma: no cover
         pass
@@ -661,6 +660,11 @@ def call_foreign(I, f, args, kwargs):
         return I.np.call_type(f, args, kwargs)
     if hasattr(f, "py_call"):
         return f.py_call(*args, **kwargs)
+    if isinstance(f, type) and f.__module__.startswith("packaging."):
+        try:
+            return f(*args, **kwargs)
+        except Exception as e:
+            raise Raised(e)
     raise Untranslatable(f"call of {f!r}")
 
 
@@ -702,6 +706,9 @@ def binop_foreign(I, op, a, b):
 
 
 def compare_foreign(I, op, a, b):
+    if type(a).__module__.startswith("packaging.") and type(b).__module__.startswith("packaging."):
+        import operator
+        return {"<": operator.lt, "<=": operator.le, ">": operator.gt, ">=": operator.ge}[op](a, b)
     raise Raised(TypeError(f"'{op}' not supported between instances of '{I.type_name(a)}' and '{I.type_name(b)}'"))
 
 
